@@ -1,6 +1,6 @@
 SPEC = {
     "id": "C11",
-    "n": {"quick": 600, "thorough": 12000},
+    "n": {"quick": 600, "thorough": 40000},
     "components": {"1": "connection JSON of a page", "2": "error / error class of a page query",
                    "3": "pages of a forward walk", "4": "pages of a backward walk"},
     "corr_name": "Pagination.Model (get_connection, walk_forward, walk_backward) vs graphql.Execute on a thunder-managed paginated field",
@@ -9,12 +9,13 @@ SPEC = {
         "Coq 8.16.1 kernel and vm_compute (no native_compute); Print Assumptions: closed under the global context",
         "hand-written model coq/theories/Pagination/Model.v of graphql/schemabuilder/pagination.go (getConnection, applyTextFilter, applySort, nodesToEdges, pagesFromEdges, applyCursorsToAllEdges, paginateManually, setCursors) and internal/filter/filter.go, tied to the code by the correspondence check only",
         "Go harness harness/cmd/c11 (generator, reference filter/sort and per-page oracle, Coq term printer), encoding/json, graphql.Parse/PrepareQuery/Execute as the path to the code under test",
-        "the four filter/sort field implementations (plain, expensive, batch, batch-with-fallback) are one function in the model; that they agree is checked by the correspondence only",
+        "filter fields: the three runners of applyTextFilter (plain, expensive, batched; fallback fields go to batched or plain by ShouldUseBatchFunc) are modelled and proved to agree; sort fields: the four implementations differ only in how the value is fetched and are one function in the model (agreement checked by the correspondence only); goroutine scheduling inside the runners is not modelled (each writes its own slots / takes a mutex)",
         "strings are ASCII byte strings (strings.ToLower is modelled on A-Z only); sort values are int64 or string (uint and float sort fields are outside the model)",
     ],
     "assumptions": [
         "keys are unique (the theorems' NoDup hypothesis; evaluated on every generated case)",
-        "the cursor encoding is injective (proved for the model's base64 in Pagination/Base64.v)",
+        "the cursor encoding is injective (a hypothesis of the general theorems; proved for the model's base64 in Pagination/Base64.v, theorem base64_is_injective)",
+        "walks use a page size k >= 1; first/last are non-negative and not both given (args_ok: exactly what the code accepts), the sort field is registered (sort_ok)",
         "custom FilterFunc/tokenisers are user code and outside the model; externally managed connections (PaginationInfo returned by the resolver) are outside the property",
     ],
     "manifest": {
